@@ -1073,7 +1073,7 @@ func selftest(ids []string) int {
 			}
 			diff := 0
 			for run, d := range ref {
-				if a.digests[run] != d {
+				if got, ok := a.digests[run]; ok && got != d {
 					if diff < 3 {
 						fmt.Printf("selftest %s: run %d digest %s vs %s (cfg %d: procs=%d race=%v)\n", id, run, d, a.digests[run], ci, c.procs, c.bin == rbin)
 					}
